@@ -154,10 +154,10 @@ def norm(r):
 def canon(name, r):
     """error wording dropped; order-insensitive form for replies that come out of hash maps / hash sets"""
     r = norm(r)
-    if name in STREAM_REPLIES:
+    if name in STREAM_REPLIES or name == "XPENDING":
         r = sort_entry_fields(r)
-        if name == "XINFO" and r[0] == "a" and r[1] and all(x[0] == "a" for x in r[1]):
-            r = ("a", sorted(r[1], key=show))        # GROUPS / CONSUMERS: one element per group / consumer, out of a hash map
+        if name in ("XINFO", "XPENDING"):
+            r = sort_record_lists(r)        # one record per group / consumer, out of a hash map (at any depth: wrapper variants nest the reply)
         return r
     if name in UNORDERED:
         return sort_flat(r)
@@ -198,6 +198,15 @@ def sort_entry_fields(r):
     if len(xs) == 2 and xs[0][0] == "b" and ID_RE.match(xs[0][1]) and xs[1][0] == "a" and len(xs[1][1]) % 2 == 0 \
             and all(y[0] == "b" for y in xs[1][1]):
         xs[1] = sort_flat(xs[1], pairs=True)
+    return ("a", xs)
+
+
+def sort_record_lists(r):
+    if r[0] != "a":
+        return r
+    xs = [sort_record_lists(x) for x in r[1]]
+    if len(xs) > 1 and all(x[0] == "a" for x in xs):
+        xs = sorted(xs, key=show)
     return ("a", xs)
 
 
@@ -1822,7 +1831,7 @@ def main(tier, seed):
     r = Rng(seed)
     try:
         q = tier == "quick"
-        layer_twin(ck, r, 220 if q else 3000, 30 if q else 40)
+        layer_twin(ck, r, 220 if q else 2400, 30 if q else 40)
         layer_programs(ck, r, 80 if q else 1000, 16 if q else 30)
         layer_refused(ck)
         layer_sandbox(ck)
